@@ -5,7 +5,7 @@
 from typing import List
 import struct
 import logging
-from ..lingosrc.util import Dictionary
+from ..lingosrc.util import Dictionary, get_encoding
 
 #
 # Marker class.
@@ -64,7 +64,7 @@ def parse_vwlb_data(fdata: bytes) -> List[Marker]:
         name_end = mnidx + struct.unpack(">h", fdata[(indx+2):(indx+4)])[0]
         logging.debug("name_end: %d", name_end)
         
-        name = fdata[name_start:name_end].decode('utf-8')
+        name = fdata[name_start:name_end].decode(get_encoding())
         logging.debug("Name: %s", name)
         
         vwlb_data.append(Marker(name, frame))
